@@ -145,8 +145,13 @@ static Result run_c09(const Case &c) {
         if (cv) r.cls((uint32_t)cv < ref::V120 ? "companions_pre_1_2_0" : "companions_other_release");
         std::vector<const std::vector<uint8_t> *> frs;
         int rot = (int)(c.get("rot", 0) % n);
-        for (int j = 0; j < n; j++) { int i = (j + rot) % n; frs.push_back(i == fi ? &f : &comp[i]); }
-        if ((fi - rot + n) % n != 0) r.cls("mutated_not_first"); else r.cls("mutated_first");
+        // pad: duplicates of the untouched companions in front (lists longer than k+m, longer than 32 entries, are legal)
+        int pad = (int)c.get("pad", 0);
+        for (int j = 0; j < pad; j++) { int i = (j * 5 + 1) % n; if (i == fi) i = (i + 1) % n; if (i != fi) frs.push_back(&comp[i]); }
+        int mpos = -1;
+        for (int j = 0; j < n; j++) { int i = (j + rot) % n; if (i == fi) mpos = (int)frs.size(); frs.push_back(i == fi ? &f : &comp[i]); }
+        if (mpos != 0) r.cls("mutated_not_first"); else r.cls("mutated_first");
+        if (mpos >= 32) r.cls("mutated_beyond_position_31");
         {
             FragSet fs; fs.build(frs, {});
             DecodeOut d = decode(b.in->desc, fs, b.s.fraglen, 0);
@@ -193,6 +198,7 @@ static Case gen_c09() {
     c.set("reseal", weighted({5, 4, 2, 1, 1, 2, 2}));
     c.set("reseal_arg", pick(0, 4 * 255 - 1));
     c.set("rot", pick(0, 31));
+    if (coin(1, 4)) c.set("pad", coin() ? pick(1, 8) : pick(20, 70));
     if (coin(1, 3)) {
         uint32_t running = liberasurecode_get_version();
         int64_t v = coin(2, 3) ? (((int64_t)1 << 16) | (pick(0, 1) << 8) | pick(0, 9)) : (int64_t)pick(ref::V120, running);
@@ -303,8 +309,18 @@ static Result run_c10(const Case &c) {
             if (md.chksum_type != 2) r.fail("metadata checksum type not CRC32");
             if (md.chksum[0] != stored) r.fail("metadata does not report the stored checksum");
         }
-        // (3) validation
-        int inv = is_invalid_fragment(b.in->desc, fb.p);
+        // (3) validation - through the writer's descriptor or through another descriptor of the same back end and shape
+        // configured with another checksum type (the verdict is about the fragment, not about who asks)
+        std::unique_ptr<Instance> validator;
+        int vdesc = b.in->desc;
+        if (int vct = (int)c.get("validator_ct", 0)) {
+            Config gv = b.g; gv.ct = vct;
+            validator.reset(new Instance(gv));
+            if (!validator->ok()) { r.fail("validator instance create failed"); set_env(0); return r; }
+            vdesc = validator->desc;
+            r.cls("validated_by_other_ct_" + std::to_string(vct));
+        }
+        int inv = is_invalid_fragment(vdesc, fb.p);
         if ((inv != 0) != want_mismatch) r.fail(std::string("is_invalid_fragment=") + std::to_string(inv) + " but payload checksum " + (want_mismatch ? "mismatches" : "is intact") + " and everything else is valid");
         if (memcmp(fb.p, f.data(), f.size())) r.fail("validation modified the fragment");
     }
@@ -339,6 +355,7 @@ static Case gen_c10() {
     c.set("via_reconstruct", coin(1, 3) ? 1 : 0);
     c.set("recenv", weighted({4, 1, 1, 3, 1}));
     c.set("twin", coin(1, 3) ? 1 : 0);
+    c.set("validator_ct", weighted({3, 1, 0, 1}));          // 0: the writer's own descriptor, 1: a NONE-configured one, 3: an MD5-configured one
     c.set("writer_ct", weighted({3, 2, 0, 1}));        // 0: same instance, 1: NONE-configured writer, 3: MD5-configured writer
     { Config g = cfg_from(c); int fi = (int)(c.get("frag") % g.n()); if (coin(1, 5) && fi < g.k) c.set("crc0", fi + 1); }
     c.set("ckind", weighted({2, 4, 2, 2, 2, 1}));
